@@ -25,6 +25,17 @@ for d in sorted(x for x in glob.glob('/verif/seeded/*/') if not os.path.basename
     sid = os.path.basename(d.rstrip('/'))
     notes = open(d + 'notes.md').read() if os.path.exists(d + 'notes.md') else ''
     title = notes.splitlines()[0].lstrip('# ').strip() if notes else sid
+    old = {}
+    if os.path.exists(d + 'meta.json'):
+        try:
+            old = json.load(open(d + 'meta.json'))
+        except Exception:
+            old = {}
+    # the logs of earlier sessions are not all kept: what they established stays unless a newer run says otherwise
+    old_val = old.get('confirmed_by_me', {}).get('result')
+    old_det = old.get('checks_run_against_it', {}).get('results', {})
+    merged_det = dict(old_det)
+    merged_det.update(det.get(sid, {}))
     meta = {
         "id": sid,
         "breaks_property": sid.split('-')[0],
@@ -35,11 +46,11 @@ for d in sorted(x for x in glob.glob('/verif/seeded/*/') if not os.path.basename
         "origin": "written by an independent sub-agent that saw only the property text and a scratch worktree of /repo",
         "confirmed_by_me": {
             "how": "./seedtool.sh validate (scratch worktree at /repo's HEAD: git apply, cargo test --workspace --no-fail-fast --offline, demo.sh with the patch, demo.sh without)",
-            "result": val.get(sid, "not validated yet"),
+            "result": val.get(sid, old_val or "not validated yet"),
         },
         "checks_run_against_it": {
             "how": "./seedtool.sh detect (quick tier, harness built against the patched scratch worktree via VERIF_SUBJECT)",
-            "results": det.get(sid, {}),
+            "results": merged_det,
         },
     }
     json.dump(meta, open(d + 'meta.json', 'w'), indent=1, ensure_ascii=False)
